@@ -14,6 +14,7 @@ CONSTANTS
   CapPending = TRUE
   MaxHist = 7
   WithdrawOnExpiry = TRUE
+  KeepLaterDeadline = FALSE
   EraseOnLookup = FALSE
 INVARIANTS C05_Clean
 VIEW View
